@@ -29,6 +29,24 @@ class NotSupported(Exception):
 # ---------------------------------------------------------------------------
 # helpers
 
+def fp_bits(v):
+    """the IEEE bit pattern of a float/double value with every NaN mapped to the quiet NaN: a total function of
+    the VALUE (z3 leaves fp.to_ieee_bv of NaN unspecified, and its congruence closure of uninterpreted functions over
+    floating-point arguments distinguishes NaN representations -- so ghost functions take these bits, not the
+    floating-point term)"""
+    w = v.sort().ebits() + v.sort().sbits()
+    qnan = BV(0x7fc00000, 32) if w == 32 else BV(0x7ff8000000000000, 64)
+    return z3.If(z3.fpIsNaN(v), qnan, z3.fpToIEEEBV(v))
+
+
+_LD_OF_DOUBLE = z3.Function('ld_of_double', z3.BitVecSort(64), z3.BitVecSort(128))
+
+
+def ld_of_double(v):
+    """the long double with the value of the double v (opaque 128-bit pattern; exact embedding)"""
+    return _LD_OF_DOUBLE(fp_bits(v))
+
+
 def b2i(c, bits=32):
     return z3.If(c, BV(1, bits), BV(0, bits))
 
@@ -152,11 +170,12 @@ class State:
         if raw:
             new = z3.Const('raw_' + uid, z3.ArraySort(B64, B8))
             if keep_stack:
-                # (A-STACK) what a callee does cannot reach the caller's locals whose address it was not given
-                a = z3.BitVec('a!stk', 64)
-                mine = z3.Or(*[in_range(a, sa, BV((ssize + 15) // 16 * 16, 64)) for sa, ssize in keep_stack])
-                new = z3.Lambda([a], z3.If(mine, z3.Select(self.raw, a), z3.Select(new, a)))
-                self.last_callee_raw = (self.raw, new)
+                # (A-STACK) what a callee does cannot reach the caller's locals whose address it was not given.  The
+                # new heap is a plain arbitrary array; the engine resolves reads of those private locals against the
+                # heap before the call (Exec._callee_raw).  A read it cannot resolve syntactically sees an arbitrary
+                # byte instead of the preserved one: an over-approximation (the real execution is the valuation in
+                # which the arbitrary array agrees with the old heap on those locals).
+                self.last_callee_raw = (self.raw, new, new)
             self.raw = mix(self.raw, new)
         if fields:
             odh = self.dh
@@ -649,6 +668,11 @@ class Exec:
                 r2 = self._read_outside(arr.arg(2), addr, memo)
                 r = r1 if r1.eq(r2) else z3.If(arr.arg(0), r1, r2)
                 break
+            tag = getattr(self, "_callee_raw", {}).get(arr.get_id())
+            if tag is not None and tag[3] is not None:
+                # the byte heap after a call that may write anything: outside this frame it is the callee's heap
+                r = z3.Select(tag[3], addr)
+                break
             r = z3.Select(arr, addr)
             break
         memo[key] = memo[a0.get_id()] = r
@@ -700,7 +724,9 @@ class Exec:
                 return self.global_addr('val:' + loc.a)
             return st.gvar('g:' + loc.a, sort_of(t))
         if loc.kind == 'mem':
-            if t.kind in ('record', 'array'):
+            if t.kind == 'record':
+                return loc.a           # the value of an aggregate is represented by the address of its bytes
+            if t.kind == 'array':
                 raise NotSupported("rvalue of aggregate")
             self.check_access(st, loc.a, t.size, 'read')
             v = self.load_raw(st, loc.a, t.size)
@@ -730,7 +756,8 @@ class Exec:
             st.ghost['g:' + loc.a] = val
         elif loc.kind == 'mem':
             if t.kind == 'float' and t.size in (4, 8):
-                val = z3.fpToIEEEBV(val)
+                # (z3 leaves fp.to_ieee_bv of NaN unspecified -- not even a NaN pattern; a stored NaN is a NaN)
+                val = fp_bits(val)
             self.check_access(st, loc.a, t.size, 'write')
             self.store_raw(st, loc.a, val, t.size)
         elif loc.kind == 'field':
@@ -1006,6 +1033,14 @@ class Exec:
             if c['kind'] == 'ParmVarDecl':
                 t = tu.ctype_of(c)
                 self.decl_types[c['id']] = t
+                if t.kind == 'record':
+                    # an aggregate passed by value: a private copy in this frame with arbitrary contents; the
+                    # contract sees its address
+                    addr = self.new_stack(c['name'], t)
+                    self.memlocals[c['id']] = (addr, t)
+                    args[c['name']] = addr
+                    self.params[c['name']] = c['id']
+                    continue
                 v = z3.Const('arg_' + c['name'], sort_of(t))
                 args[c['name']] = v
                 self.params[c['name']] = c['id']
@@ -1087,7 +1122,7 @@ class Exec:
             for fa, fn_ in self.fresh_regions:           # memory allocated by this call did not exist before
                 conds.append(z3.Not(in_range(a, fa, fn_)))
             self.ob('frame', rline, 'raw-bytes-outside-assigns-unchanged', rst,
-                    z3.Implies(z3.And(*conds), z3.Select(rst.raw, a) == z3.Select(self.raw0, a)),
+                    z3.Implies(z3.And(*conds), z3.Select(self._anon_stores(rst.raw, {}), a) == z3.Select(self.raw0, a)),
                     witness={'frame_a': a})
         if not fr.all_fields:
             allowed = set()
@@ -1117,6 +1152,29 @@ class Exec:
                 continue
             if not _same(gv, g0):
                 self.ob('frame', rline, 'ghost-unchanged:' + gk, rst, gv == g0)
+
+    def _anon_stores(self, arr, memo):
+        """the same byte heap with every stored VALUE replaced by an arbitrary byte: which bytes a function writes does
+        not depend on what it writes, and the frame obligation proved for arbitrary values holds for the real ones
+        (keeps floating-point conversions and other heavy value terms out of the frame queries)"""
+        key = arr.get_id()
+        if key in memo:
+            return memo[key]
+        chain, cur = [], arr
+        while z3.is_app(cur) and cur.decl().kind() == z3.Z3_OP_STORE and cur.get_id() not in memo:
+            chain.append(cur)
+            cur = cur.arg(0)
+        if cur.get_id() in memo:
+            r = memo[cur.get_id()]
+        elif z3.is_app(cur) and cur.decl().kind() == z3.Z3_OP_ITE:
+            r = z3.If(cur.arg(0), self._anon_stores(cur.arg(1), memo), self._anon_stores(cur.arg(2), memo))
+        else:
+            r = cur
+        memo[cur.get_id()] = r
+        for stx in reversed(chain):
+            r = z3.Store(r, stx.arg(1), self.fresh('anybyte', B8))
+            memo[stx.get_id()] = r
+        return r
 
     # -- statements ----------------------------------------------------------
     def has_label(self, node):
@@ -1309,6 +1367,21 @@ class Exec:
                     v = BV(0, t.target.bits)
                 self.store(st, Loc('mem', t.target, addr + BV(i * t.target.size, 64)), v)
             return
+        if init['kind'] == 'InitListExpr' and t.kind == 'record':
+            fields = self.tu.layout(t.name)[2]
+            elems = init.get('inner', []) or []
+            order = sorted(fields.items(), key=lambda kv: kv[1][0])
+            if len(elems) <= len(order) and all(ft.kind in ('int', 'ptr', 'float') and b is None for _n, (o, ft, b) in order):
+                for k, (fname, (off, ft, _b)) in enumerate(order):
+                    if k < len(elems):
+                        v = self.ev(elems[k], st)
+                    else:
+                        v = z3.FPVal(0.0, sort_of(ft)) if ft.kind == 'float' else BV(0, ft.bits)
+                    if ft.kind == 'float':
+                        self.store(st, Loc('mem', ft, addr + BV(off, 64)), v)
+                    else:
+                        self.store(st, Loc('field', ft, addr, t.name, off), v)
+                return
         raise NotSupported("aggregate initialiser")
 
     def exec_if(self, n, st):
@@ -1668,6 +1741,10 @@ class Exec:
             off, ft2, bits_ = fields[n['name']]
             if ft2.kind in ('record', 'array'):
                 return Loc('mem', ft2, p + BV(off, 64) if off else p)
+            if ft2.kind == 'float' and not n.get('isArrow'):
+                # (floating-point members of an aggregate held in memory by this frame -- Py_complex -- are bytes:
+                #  the code copies them with memcpy)
+                return Loc('mem', ft2, p + BV(off, 64) if off else p)
             if bits_ is not None:
                 return Loc('bitfield', ft2, p, rt.name, (off, bits_[0], bits_[1]))
             return Loc('field', ft2, p, rt.name, off)
@@ -1838,11 +1915,11 @@ class Exec:
     def fp_opaque_cast(self, v, ts, tt):
         # double <-> long double: exact embedding modelled by an uninterpreted injective pair
         if ts.size == 8 and tt.size == 16:
-            return self.reg.ghost('ld_of_double', z3.Float64(), z3.BitVecSort(128))(v)
+            return ld_of_double(v)
         if ts.size == 16 and tt.size == 8:
             return self.reg.ghost('double_of_ld', z3.BitVecSort(128), z3.Float64())(v)
         if ts.size == 4 and tt.size == 16:
-            return self.reg.ghost('ld_of_double', z3.Float64(), z3.BitVecSort(128))(z3.fpFPToFP(z3.RNE(), v, z3.Float64()))
+            return ld_of_double(z3.fpFPToFP(z3.RNE(), v, z3.Float64()))
         if ts.size == 16 and tt.size == 4:
             raise NotSupported("long double -> float")
         raise NotSupported("fp cast")
@@ -2080,9 +2157,9 @@ class Exec:
         st.last_callee_raw = None
         st.havoc(tag, keep=keep, err=err, keep_trace=True, keep_stack=priv)
         if priv and getattr(st, 'last_callee_raw', None) is not None:
-            before, lam = st.last_callee_raw
+            before, lam, fresh = st.last_callee_raw
             privset = {k for k, sym in enumerate(self.stack_syms) if any(sym[0].eq(p[0]) for p in priv)}
-            self._callee_raw[lam.get_id()] = (before, privset, lam)
+            self._callee_raw[lam.get_id()] = (before, privset, lam, fresh)
 
     def private_stack(self, args=()):
         """this frame's locals whose address is not among the given call arguments (A-STACK: a callee can write a
@@ -2126,6 +2203,7 @@ class Exec:
             newraw = self.fresh('raw_after_' + name, z3.ArraySort(B64, B8))
             priv = self.private_stack(args)
             before_call = st.raw
+            allraw_fresh = None
             a = z3.BitVec('a!bound', 64)
             mine = z3.Or(*[in_range(a, sa, BV((ssize + 15) // 16 * 16, 64)) for sa, ssize in priv]) if priv else None
             if not fr.all_raw:
@@ -2134,16 +2212,15 @@ class Exec:
                 if fr.all_raw_if is not None:
                     inside = z3.Or(inside, z3.And(fr.all_raw_if, z3.Not(mine)) if mine is not None else fr.all_raw_if)
                 st.raw = z3.Lambda([a], z3.If(inside, z3.Select(newraw, a), z3.Select(st.raw, a)))
-            elif mine is not None:
-                st.raw = z3.Lambda([a], z3.If(mine, z3.Select(st.raw, a), z3.Select(newraw, a)))
             else:
-                st.raw = newraw
+                st.raw = newraw           # (private locals are read through _callee_raw, see State.havoc)
+                allraw_fresh = newraw
             if priv and all(self._stack_split(z3.simplify(lo)) is not None or self._outside_frame(lo, 1) >= len(self.stack_syms)
                             for lo, nn in fr.raw):
                 # (regions named by the frame are either locals handed to the callee -- not private -- or proved
                 #  outside this frame; so a private local reads through this heap as through the one before the call)
                 privset = {k for k, sym in enumerate(self.stack_syms) if any(sym[0].eq(p[0]) for p in priv)}
-                self._callee_raw[st.raw.get_id()] = (before_call, privset, st.raw)
+                self._callee_raw[st.raw.get_id()] = (before_call, privset, st.raw, allraw_fresh)
         if fr.all_fields:
             st.havoc('after_' + name, raw=False, fields=True, ghost=False)
         for f in fr.fields:
